@@ -365,6 +365,33 @@ def gen_script_castable(rng: random.Random, name: str):
     return {"k": "script", "name": name, "src": src}, "script:castable:as_tensor"
 
 
+def m_adapter(rng: random.Random):
+    """models whose conversion runs a value-creating adapter (DFT 19->20, GridSample 19->20, GroupNormalization 20->21),
+    optionally with values already called val_<n>"""
+    k = rng.choice(["dft", "dft", "gridsample", "groupnorm", "plain19"])
+    named = rng.random() < 0.4
+    v = (lambda i: f"val_{i}") if named else (lambda i: f"t{i}")
+    if k == "dft":
+        axis = rng.choice([1, 2])
+        text = (f'<ir_version: 9, opset_import: ["" : 19]>\nagraph (float[1,4,4,1] x) => (float[?,?,?,?] y)\n{{\n  {v(0)} = Identity (x)\n'
+                f'  {v(1)} = DFT <axis = {axis}> ({v(0)})\n  y = Identity ({v(1)})\n}}\n')
+        tgt = rng.choice([20, 20, 21])
+    elif k == "gridsample":
+        mode = rng.choice(["bilinear", "bicubic", "nearest"])
+        text = (f'<ir_version: 9, opset_import: ["" : 19]>\nagraph (float[1,1,2,2] x, float[1,2,2,2] g) => (float[?,?,?,?] y)\n{{\n'
+                f'  {v(0)} = GridSample <mode = "{mode}"> (x, g)\n  y = Relu ({v(0)})\n}}\n')
+        tgt = 20
+    elif k == "groupnorm":
+        text = (f'<ir_version: 9, opset_import: ["" : 20]>\nagraph (float[1,4,2,2] x) => (float[?,?,?,?] y)\n<float[2] sc = {{1,2}}, float[2] bi = {{0,1}}>\n{{\n'
+                f'  {v(0)} = GroupNormalization <num_groups = 2> (x, sc, bi)\n  y = Relu ({v(0)})\n}}\n')
+        tgt = 21
+    else:
+        text = f'<ir_version: 9, opset_import: ["" : 19]>\nagraph (float[3] x) => (float[3] y)\n{{\n  {v(3)} = Relu (x)\n  y = Neg ({v(3)})\n}}\n'
+        tgt = rng.choice([20, 21])
+    kind = rng.choice(["convert_pass", "convert_pass", "convert"])
+    return {"k": "model", "op": kind, "target": tgt, "model": text}, f"{kind}:adapter:{k}{':named' if named else ''}"
+
+
 MODEL_GENS = [m_reshape_reshape, m_reshape_reshape, m_flatten, m_conv_pad, m_conv_pad, m_materialize, m_misc]
 
 
@@ -384,6 +411,8 @@ def gen_model_op(rng: random.Random, allow_fail: bool = True):
         tgt = rng.choice([19, 20, 21, 22, 23, 17])
         kind = rng.choice(["convert", "convert", "convert_proto"])
         return {"k": "model", "op": kind, "target": tgt, "model": text}, f"{kind}:{tag}"
+    if r < 0.315:
+        return m_adapter(rng)
     if r < 0.33:
         return m_multi_domain(rng)
     if r < 0.345:
